@@ -209,14 +209,15 @@ Lemma conn_loop_spec vals : all_clean vals = true -> forall flag stored,
   fst (conn_loop vals flag stored) = flag || has_close vals /\
   exists kept, snd (conn_loop vals flag stored) = stored ++ kept /\ (forall v, In v kept -> In v vals).
 Proof.
-  induction vals as [|v vals IH]; intros Hc flag stored; cbn.
-  - rewrite orb_false_r. split; [reflexivity|]. exists []. rewrite app_nil_r. split; [reflexivity|tauto].
-  - cbn in Hc. apply andb_true_iff in Hc as [Hv Hc]. unfold has_close. rewrite has_option_cons. fold (has_close [v]). fold (has_close vals).
-    rewrite (hhv_close_rfc v Hv). destruct (has_close [v]).
+  induction vals as [|v vals IH]; intros Hc flag stored; cbn [conn_loop].
+  - cbn. rewrite orb_false_r. split; [reflexivity|]. exists []. rewrite app_nil_r. split; [reflexivity|tauto].
+  - cbn in Hc. apply andb_true_iff in Hc as [Hv Hc].
+    assert (Hcons : has_close (v :: vals) = has_close [v] || has_close vals) by apply has_option_cons.
+    rewrite Hcons. rewrite (hhv_close_rfc v Hv). destruct (has_close [v]).
     + destruct (IH Hc true stored) as (I1 & kept & I2 & I3). rewrite I1. split; [rewrite orb_true_r; reflexivity|].
-      exists kept. split; auto.
+      exists kept. split; auto. intros w Hw. right. auto.
     + destruct (IH Hc flag (stored ++ [v])) as (I1 & kept & I2 & I3). rewrite I1. split; [reflexivity|].
-      exists (v :: kept). rewrite I2, <- app_assoc. split; [reflexivity|]. intros w [<-|Hw]; auto.
+      exists (v :: kept). rewrite I2, <- app_assoc. split; [reflexivity|]. intros w [<-|Hw]; [left; reflexivity|right; auto].
 Qed.
 
 Lemma has_option_false_in opt vals v : has_option opt vals = false -> In v vals -> has_option opt [v] = false.
@@ -241,9 +242,9 @@ Proof.
   destruct (conn_loop vals false []) as [flag stored]. cbn in H1, H2. subst flag stored.
   destruct fc; [destruct (negb http11); reflexivity|].
   unfold wants_close in Hw. destruct (has_close vals); [destruct (negb http11); reflexivity|].
-  cbn in Hw. apply andb_true_iff in Hw as [Hv Hk]. rewrite Hv. cbn.
+  rewrite orb_false_l in Hw. apply andb_true_iff in Hw as [Hv Hk]. rewrite Hv. cbn [orb andb negb app].
   apply negb_true_iff in Hk. apply negb_true_iff.
-  destruct kept as [|v kept]; [reflexivity|]. cbn.
+  destruct kept as [|v kept]; [reflexivity|]. cbn [peek_first app].
   rewrite hhv_keepalive_rfc by (apply (all_clean_in vals); auto; apply H3; left; reflexivity).
   apply (has_option_false_in _ vals); auto. apply H3. left. reflexivity.
 Qed.
